@@ -56,6 +56,73 @@ var adjFirst = []adjPiece{
 	{"string-interp", []string{"j = \"v#{i}\""}},
 	{"ivar-assign", []string{"@seen = i"}},
 	{"dbtp", []string{"dbtp i"}},
+	{"rescue-modifier", []string{"j = i.fdiv(2) rescue nil"}},
+	{"rescue-modifier-call", []string{"puts i rescue nil"}},
+	{"and-or", []string{"j = i and n"}},
+	{"not", []string{"j = (not n)"}},
+	{"defined", []string{"j = defined?(i)"}},
+	{"lambda", []string{"j = ->(q) { q }"}},
+	{"proc-call", []string{"j = [1].map { |q| q }"}},
+	{"heredoc-free-string", []string{"j = 'single'"}},
+	{"percent-w", []string{"j = %w[a b]"}},
+	{"safe-navigation", []string{"j = n&.to_s"}},
+	{"range-literal", []string{"j = 1..n"}},
+	{"op-assign-or", []string{"j ||= 5"}},
+	{"multiple-assign", []string{"j, k = 1, \"s\""}},
+	{"yield-free-block-arg", []string{"arr.each(&:to_s)"}},
+}
+
+// adjClassFirst / adjClassSecond: the same idea inside a class body.
+var adjClassFirst = []adjPiece{
+	{"attr-accessor", []string{"attr_accessor :lv"}},
+	{"attr-reader", []string{"attr_reader :lr"}},
+	{"attr-accessor-two", []string{"attr_accessor :lv, :lw"}},
+	{"include", []string{"include Adjmix"}},
+	{"extend", []string{"extend Adjmix"}},
+	{"private", []string{"private"}},
+	{"public", []string{"public"}},
+	{"protected", []string{"protected"}},
+	{"endless-def", []string{"def en = 1"}},
+	{"one-line-def", []string{"def ol; 1; end"}},
+	{"def", []string{"def dm", "  1", "end"}},
+	{"constant", []string{"LIMIT = 5"}},
+	{"class-variable", []string{"@@count = 0"}},
+	{"private-def", []string{"private def pd", "  1", "end"}},
+	{"private-symbol", []string{"def ps", "  1", "end", "private :ps"}},
+	{"class-self-block", []string{"class << self", "  def cs", "    1", "  end", "end"}},
+}
+
+var adjClassSecond = []adjPiece{
+	{"if", []string{"if true", "  def cm", "    \"s\"", "  end", "end"}},
+	{"unless", []string{"unless false", "  def cm", "    \"s\"", "  end", "end"}},
+	{"while", []string{"while false", "end", "def cm", "  \"s\"", "end"}},
+	{"array-each", []string{"[1].each { |e| e }", "def cm", "  \"s\"", "end"}},
+	{"def", []string{"def cm", "  \"s\"", "end"}},
+	{"def-self", []string{"def self.cm", "  \"s\"", "end", "def cm", "  :k", "end"}},
+	{"attr-reader", []string{"attr_reader :other", "def cm", "  \"s\"", "end"}},
+	{"paren-expr", []string{"(1).to_s", "def cm", "  \"s\"", "end"}},
+	{"private", []string{"private", "def hidden", "  1", "end", "public", "def cm", "  \"s\"", "end"}},
+	{"case", []string{"case 1", "when 1 then 2", "end", "def cm", "  \"s\"", "end"}},
+	{"begin", []string{"begin", "  1", "end", "def cm", "  \"s\"", "end"}},
+}
+
+// buildClassAdjacency: b directly follows a inside a class body.
+func buildClassAdjacency(ai, bi int) (src string, boundary int, ctx string) {
+	a, b := adjClassFirst[ai], adjClassSecond[bi]
+	var lines []string
+	emit := func(ind string, ls ...string) {
+		for _, l := range ls {
+			lines = append(lines, ind+l)
+		}
+	}
+	emit("", "module Adjmix", "  def mixed", "    2.5", "  end", "end", "class Adjc")
+	emit("  ", "def first_m", "  0", "end")
+	emit("  ", a.Lines...)
+	boundary = len(lines) + 1
+	emit("  ", b.Lines...)
+	emit("  ", "def last_m", "  :z", "end")
+	emit("", "end", "av = Adjc.new", "dbtp av.cm", "dbtp av.first_m", "dbtp av.last_m", "av.lv", "av.nope")
+	return strings.Join(lines, "\n") + "\n", boundary, "adj-class:" + a.Name + "|" + b.Name
 }
 
 var adjSecond = []adjPiece{
